@@ -72,6 +72,18 @@ def sliceFrom (t : Tup) (i : Int) : Tup := t.drop i.toNat
 /-- `t[:i]` for a literal `i ≥ 0` -/
 def sliceTo (t : Tup) (i : Int) : Tup := t.take i.toNat
 
+/-- `t[i:]` and `t[:i]` for an arbitrary int `i` (negative: counted from the end, clipped) -/
+def sliceFromG (t : Tup) (i : Int) : Tup :=
+  let j := if i < 0 then i + t.length else i
+  t.drop j.toNat
+def sliceToG (t : Tup) (i : Int) : Tup :=
+  let j := if i < 0 then i + t.length else i
+  t.take j.toNat
+
+/-- `a ** b` for `b ≥ 0` (the translated functions raise to small non-negative powers; a negative exponent would be a
+    float in Python and is refused by the translator's typing: the driver answers `.lib "TypeError"`) -/
+def pow (a b : Int) : M Int := if b < 0 then throw (.lib "TypeError") else pure (a ^ b.toNat)
+
 def len (t : Tup) : Int := t.length
 
 /-- `x in t` -/
